@@ -91,6 +91,28 @@ pub fn fuzz_tape(data: &[u8]) {
     }
 }
 
+/// Generic structure-aware target: the input is the entropy tape of the property selected with
+/// VERIF_ORACLE (any of the 17) - exactly what the proptest-driven part of that check generates - so
+/// libFuzzer's coverage feedback (the crate is instrumented) steers the same generators and oracles.
+pub fn fuzz_prop_tape(data: &[u8]) {
+    thread_local! {
+        static P: Option<Box<dyn crate::engine::Property>> = crate::props::by_id(&cfg().oracle);
+    }
+    let c = cfg();
+    P.with(|p| {
+        let prop = match p {
+            Some(p) => p,
+            None => return,
+        };
+        let mut ctx = Ctx::new(Tier::Thorough, 0, &c.known, prop.id());
+        ctx.counting = false;
+        let r = run_guarded(prop.as_ref(), &mut ctx, |c| prop.run_tape(data, c), || serde_json::json!({"tape_hex": crate::tape::hex(data)}));
+        if let Err(f) = r {
+            report(&f);
+        }
+    })
+}
+
 fn report(f: &Failure) -> ! {
     // the driver parses this line from the fuzzer's output
     eprintln!("EPVERIF-ORACLE-FAILURE {}", serde_json::json!({"signature": f.signature, "clause": f.clause, "detail": f.detail, "input": f.input}));
@@ -105,6 +127,9 @@ use std::path::Path;
 use std::process::{Command, Stdio};
 
 fn concretize(target: &str, data: &[u8]) -> Value {
+    if target == "prop_tape" {
+        return json!({"tape_hex": crate::tape::hex(data)});
+    }
     if target == "decode_raw" {
         let (start, bytes, ranges) = decode_raw_input(data);
         json!({"start": start.to_json(), "bytes_hex": crate::tape::hex(bytes), "ranges": ranges})
@@ -153,6 +178,16 @@ fn write_seed_corpus(target: &str, dir: &Path, committed: &Path) {
 }
 
 pub fn run_fuzz_campaign(id: &str, root: &Path, seed: u64, runs_per_job: u64, jobs: u32) -> Result<Value, Failure> {
+    run_fuzz_campaign_on(id, root, seed, runs_per_job, jobs, &["decode_tape", "decode_raw"], 768)
+}
+
+/// Campaign on the generic `prop_tape` target (thorough tier of C08-C17): `tape_len` is the property's
+/// maximum tape length (longer inputs would only be ignored by the generators).
+pub fn run_prop_fuzz_campaign(id: &str, root: &Path, seed: u64, runs_per_job: u64, jobs: u32, tape_len: usize) -> Result<Value, Failure> {
+    run_fuzz_campaign_on(id, root, seed, runs_per_job, jobs, &["prop_tape"], tape_len)
+}
+
+fn run_fuzz_campaign_on(id: &str, root: &Path, seed: u64, runs_per_job: u64, jobs: u32, targets: &[&str], tape_max_len: usize) -> Result<Value, Failure> {
     let harness = root.join("harness");
     let t0 = std::time::Instant::now();
     // (re)build against the current /repo tree
@@ -166,7 +201,7 @@ pub fn run_fuzz_campaign(id: &str, root: &Path, seed: u64, runs_per_job: u64, jo
         Err(e) => return Ok(json!({"fuzz": {"skipped": format!("cargo fuzz not runnable: {}", e)}})),
     }
     let mut report = vec![];
-    for target in ["decode_tape", "decode_raw"] {
+    for &target in targets {
         let bin = harness.join("fuzz/target/x86_64-unknown-linux-gnu/release").join(target);
         if !bin.exists() {
             return Ok(json!({"fuzz": {"skipped": format!("{} not built", bin.display())}}));
@@ -184,7 +219,7 @@ pub fn run_fuzz_campaign(id: &str, root: &Path, seed: u64, runs_per_job: u64, jo
                 .arg(&corpus)
                 .arg(format!("-runs={}", runs_per_job))
                 .arg(format!("-seed={}", seed.wrapping_mul(131).wrapping_add(j as u64 + 1)))
-                .arg(if target == "decode_tape" { "-max_len=768" } else { "-max_len=2048" })
+                .arg(if target == "decode_raw" { "-max_len=2048".to_string() } else { format!("-max_len={}", tape_max_len) })
                 .arg("-len_control=0")
                 .arg("-timeout=30")
                 .arg("-rss_limit_mb=4096")
